@@ -462,6 +462,171 @@ Fixpoint serve_seq_cached (root : vtrie) (fallbacks : list bytes) (cache : list 
       r :: serve_seq_cached root fallbacks cache' t
   end.
 
+
+(* ================= the request-target as net/http hands it to the server ================= *)
+(* serveHTTP routes on r.URL.Path, the DECODED path. net/http builds r.URL with
+   url.ParseRequestURI(target): for an origin-form target ("/..."): no control byte anywhere, the
+   text up to the first "?" is the path, and every "%" must be followed by two hex digits (either
+   letter case), which unescape(encodePath) replaces by the octet — "%2F" becomes "/" and
+   "%C3%A9" two arbitrary bytes; nothing else is rewritten (no "+", no dot-segment cleaning, "#"
+   is an ordinary byte). *)
+Definition PCT : N := 37.
+Definition QMARK : N := 63.
+Definition hexval (c : N) : option N :=
+  if (48 <=? c) && (c <=? 57) then Some (c - 48)
+  else if (97 <=? c) && (c <=? 102) then Some (c - 87)
+  else if (65 <=? c) && (c <=? 70) then Some (c - 55)
+  else None.
+Fixpoint unescape (s : bytes) : option bytes :=
+  match s with
+  | [] => Some []
+  | c :: r =>
+      if c =? PCT then
+        match r with
+        | h :: l :: r' =>
+            match hexval h, hexval l with
+            | Some a, Some b => option_map (cons (16 * a + b)) (unescape r')
+            | _, _ => None
+            end
+        | _ => None
+        end
+      else option_map (cons c) (unescape r)
+  end.
+Definition is_ctl (c : N) : bool := (c <? 32) || (c =? 127).
+Fixpoint upto_q (s : bytes) : bytes :=
+  match s with [] => [] | c :: r => if c =? QMARK then [] else c :: upto_q r end.
+Definition target_ok (raw : bytes) : bool :=
+  match raw with c :: _ => (c =? SLASH) && negb (existsb is_ctl raw) | [] => false end.
+(* url.ParseRequestURI(raw).Path for origin-form targets; None = rejected (400, the server's
+   handler is never entered) or not origin-form *)
+Definition target_path (raw : bytes) : option bytes :=
+  if target_ok raw then unescape (upto_q raw) else None.
+(* what the server answers to a request whose request line carries [raw] *)
+Definition tserve_target (root : vtrie) (xf : list bytes) (hh raw : bytes) (proto : N) : option routed :=
+  option_map (fun up => tserve root xf hh up proto) (target_path raw).
+
+(* the relation "raw spells the path p": every octet of p is written either as itself (any byte
+   but "%") or as "%" and two hex digits of either case *)
+Inductive spells : bytes -> bytes -> Prop :=
+| spells_nil : spells [] []
+| spells_lit c r p : c <> PCT -> spells r p -> spells (c :: r) (c :: p)
+| spells_esc h l a b r p : hexval h = Some a -> hexval l = Some b -> spells r p ->
+                           spells (PCT :: h :: l :: r) ((16 * a + b) :: p).
+
+(* executable, independently written reading of [spells] used by [judge] on Go's own decoding:
+   a lock-step CHECK of (raw, decoded) with the digit value looked up in a table *)
+Fixpoint pos_in (c : N) (l : list N) (k : N) : option N :=
+  match l with [] => None | x :: r => if x =? c then Some k else pos_in c r (k + 1) end.
+Definition spec_hex (c : N) : option N :=
+  pos_in (lower_byte c) [48;49;50;51;52;53;54;55;56;57;97;98;99;100;101;102] 0.
+Fixpoint spells_b (raw p : bytes) : bool :=
+  match raw, p with
+  | [], [] => true
+  | c :: r, x :: p' =>
+      if c =? PCT then
+        match r with
+        | h :: l :: r' =>
+            match spec_hex h, spec_hex l with
+            | Some a, Some b => (16 * a + b =? x) && spells_b r' p'
+            | _, _ => false
+            end
+        | _ => false
+        end
+      else (c =? x) && spells_b r p'
+  | _, _ => false
+  end.
+(* no spelling at all: some "%" is not followed by two hex digits *)
+Fixpoint bad_escape (raw : bytes) : bool :=
+  match raw with
+  | [] => false
+  | c :: r =>
+      if c =? PCT then
+        match r with
+        | h :: l :: r' => match spec_hex h, spec_hex l with Some _, Some _ => bad_escape r' | _, _ => true end
+        | _ => true
+        end
+      else bad_escape r
+  end.
+
+
+(* ================= host letter case as Go folds it ================= *)
+(* strings.ToLower: byte-wise A-Z folding when every byte is ASCII; otherwise
+   strings.Map(unicode.ToLower, s): the text is decoded as UTF-8, every byte that does not start
+   a well-formed sequence becomes U+FFFD (EF BF BD — so DIFFERENT invalid bytes fold to the SAME
+   text), every code point is mapped by unicode.ToLower and re-encoded (the length may change:
+   U+0130 -> "i", U+212A KELVIN SIGN -> "k"). [lower_rune] carries the case pairs of the blocks
+   the generator draws from (Basic Latin, Latin-1, Latin Extended-A up to U+012F, U+0130, Greek
+   and Cyrillic capitals, the three letter-like signs); every other code point is left alone. *)
+Definition lower_rune (r : N) : N :=
+  if (65 <=? r) && (r <=? 90) then r + 32
+  else if (192 <=? r) && (r <=? 222) && negb (r =? 215) then r + 32
+  else if (256 <=? r) && (r <=? 303) then (if N.even r then r + 1 else r)
+  else if r =? 304 then 105
+  else if (913 <=? r) && (r <=? 937) && negb (r =? 930) then r + 32
+  else if (1024 <=? r) && (r <=? 1039) then r + 80
+  else if (1040 <=? r) && (r <=? 1071) then r + 32
+  else if r =? 8490 then 107
+  else if r =? 8491 then 229
+  else if r =? 8486 then 969
+  else r.
+Definition encode_rune (r : N) : bytes :=
+  if r <? 128 then [r]
+  else if r <? 2048 then [192 + r / 64; 128 + r mod 64]
+  else if r <? 65536 then [224 + r / 4096; 128 + (r / 64) mod 64; 128 + r mod 64]
+  else [240 + r / 262144; 128 + (r / 4096) mod 64; 128 + (r / 64) mod 64; 128 + r mod 64].
+Definition cont (lo hi c : N) : bool := (lo <=? c) && (c <=? hi).
+(* utf8.DecodeRune: (code point, width) of a well-formed sequence at the head, else None *)
+Definition decode_rune (s : bytes) : option (N * nat) :=
+  match s with
+  | [] => None
+  | b0 :: r =>
+      if b0 <? 128 then Some (b0, 1%nat)
+      else if cont 194 223 b0 then
+        match r with b1 :: _ => if cont 128 191 b1 then Some ((b0 - 192) * 64 + (b1 - 128), 2%nat) else None | _ => None end
+      else if cont 224 239 b0 then
+        match r with
+        | b1 :: b2 :: _ =>
+            let lo := if b0 =? 224 then 160 else 128 in
+            let hi := if b0 =? 237 then 159 else 191 in
+            if cont lo hi b1 && cont 128 191 b2
+            then Some ((b0 - 224) * 4096 + (b1 - 128) * 64 + (b2 - 128), 3%nat) else None
+        | _ => None
+        end
+      else if cont 240 244 b0 then
+        match r with
+        | b1 :: b2 :: b3 :: _ =>
+            let lo := if b0 =? 240 then 144 else 128 in
+            let hi := if b0 =? 244 then 143 else 191 in
+            if cont lo hi b1 && cont 128 191 b2 && cont 128 191 b3
+            then Some ((b0 - 240) * 262144 + (b1 - 128) * 4096 + (b2 - 128) * 64 + (b3 - 128), 4%nat) else None
+        | _ => None
+        end
+      else None
+  end.
+Fixpoint map_runes (fuel : nat) (s : bytes) : bytes :=
+  match fuel, s with
+  | O, _ => []
+  | _, [] => []
+  | S f, _ :: r =>
+      match decode_rune s with
+      | Some (c, w) => encode_rune (lower_rune c) ++ map_runes f (skipn w s)
+      | None => [239; 191; 189] ++ map_runes f r
+      end
+  end.
+Definition go_lower (s : bytes) : bytes :=
+  if forallb (fun c => c <? 128) s then to_lower s else map_runes (length s) s.
+(* splitHostPath lower-cases the text before the first "/" *)
+Definition lower_key (k : bytes) : bytes :=
+  go_lower (upto_slash k) ++ skipn (length (upto_slash k)) k.
+(* serveHTTP with Go's folding made explicit: the key handed to Match, host part folded as Go
+   does; Insert likewise. On folded text the A-Z folding inside [split_host_path] is the identity. *)
+Definition tserve_u (sites : list (bytes * N)) (xf : list bytes) (hh up : bytes) (proto : N) : routed :=
+  let root := tbuild (map (fun s => (lower_key (fst s), snd s)) sites) in
+  match ttrie_match root (default_fallbacks ++ xf) (lower_key (strip_port hh ++ up)) with
+  | Some (s, prefix) => Site s prefix
+  | None => NotFound (if 2 <=? proto then 421 else 404)
+  end.
+
 (* one observed request of a multi-listener case *)
 Record mreq := { mq_srv : N; mq_host : bytes; mq_path : bytes; mq_proto : N; mq_simple : bool;
                  mq_trace : list N; mq_status : N; mq_prefix : bytes; mq_opath : bytes }.
@@ -473,7 +638,15 @@ Inductive case :=
          (obs_trace : list N) (obs_status : N) (obs_prefix obs_path : bytes)
 (* listeners created one after the other in one process (site ids unique over the whole
    process), then requests to any of them *)
-| CMulti (groups : list group) (reqs : list mreq).
+| CMulti (groups : list group) (reqs : list mreq)
+(* a request whose Host (or a declared host) has non-ASCII bytes: Go's Unicode-aware folding *)
+| CRouteU (sites : list (bytes * N)) (extra_fallbacks : list bytes) (host_header url_path : bytes)
+          (proto : N) (obs_trace : list N) (obs_status : N) (obs_prefix obs_path : bytes)
+(* a raw origin-form request-target: [go_path] is URL.Path as url.ParseRequestURI produced it
+   (None: rejected); the model decodes [raw] itself *)
+| CTarget (sites : list (bytes * N)) (extra_fallbacks : list bytes) (host_header raw : bytes)
+          (go_path : option bytes) (proto : N)
+          (obs_trace : list N) (obs_status : N) (obs_prefix obs_path : bytes).
 
 Definition judge_mreq (groups : list group) (st : pstate) (q : mreq) : bool * bool :=
   let i := N.to_nat (mq_srv q) in
@@ -497,4 +670,26 @@ Definition judge (c : case) : N :=
       let st := process groups in
       let rs := map (judge_mreq groups st) reqs in
       verdict (forallb fst rs) (forallb snd rs)
+  | CRouteU sites xf hh up proto otrace ost oprefix opath =>
+      (* the spec is evaluated on the folded names: declared hosts and request host folded as Go
+         folds them, then "most specific pattern, longest prefix" as for ASCII names *)
+      let sites' := map (fun s => (lower_key (fst s), snd s)) sites in
+      let hh' := go_lower (strip_port hh) in
+      if beq (strip_port hh') hh' && forallb (fun c => negb (c =? SLASH)) hh && beq (upto_slash up) [] then
+        let '(agree, spec_ok) := judge_route sites' xf hh' up proto false otrace ost oprefix opath
+                                             (tserve_u sites xf hh up proto) in
+        verdict agree spec_ok
+      else verdict false true
+  | CTarget sites xf hh raw gp proto otrace ost oprefix opath =>
+      match target_path raw, gp with
+      | Some up, Some g =>
+          (* model: decode, then the trie; spec: Go's decoded path must be spelled by the raw text
+             (lock-step check) and the answer must be the spec's for THAT decoded path *)
+          let '(agree, spec_ok) := judge_route sites xf hh g proto false otrace ost oprefix opath
+                                               (tserve (tbuild sites) xf hh up proto) in
+          verdict (agree && beq up g) (spec_ok && spells_b (upto_q raw) g)
+      | None, None => verdict true (negb (target_ok raw) || bad_escape (upto_q raw))
+      | Some _, None => verdict false (negb (target_ok raw) || bad_escape (upto_q raw))
+      | None, Some g => verdict false (target_ok raw && spells_b (upto_q raw) g)
+      end
   end.
